@@ -7,7 +7,7 @@ import ast
 from fractions import Fraction
 import z3
 from .values import (Sym, NAN, Vec, Arr, Obj, Opaque, OutOfSubset, is_sym, z3num, z3bool, mk_bool, mk_num, kind_of,
-                     is_conc_num)
+                     is_conc_num, PvObject)
 from .engine import PathEnd, NotPure, RaiseSignal
 from .source import RepoFunc, RepoClass, ModInfo
 from . import ops
@@ -312,6 +312,8 @@ class Interp:
         if isinstance(node.op, ast.Not):
             return ops.lnot(ops.truthy(v))
         if isinstance(node.op, ast.USub):
+            if isinstance(v, PvObject):
+                return v.pv_binop(self, '*', -1, False)
             return self.lib.elementwise1(self, ops.neg, v)
         if isinstance(node.op, ast.UAdd):
             return v
@@ -333,6 +335,10 @@ class Interp:
         return self.binop(op, a, b)
 
     def binop(self, op, a, b):
+        if isinstance(a, PvObject):
+            return a.pv_binop(self, op, b, False)
+        if isinstance(b, PvObject):
+            return b.pv_binop(self, op, a, True)
         if isinstance(a, str) and isinstance(b, str) and op == '+':
             return a + b
         if isinstance(a, str) and op == '%':
@@ -441,6 +447,10 @@ class Interp:
                 if len(node.ops) != 1:
                     raise OutOfSubset('chained array comparison')
                 return r
+            if isinstance(r, PvObject):
+                if len(node.ops) != 1:
+                    raise OutOfSubset('chained series comparison')
+                return r
             res = ops.land(res, r)
             if res is False:
                 return False
@@ -448,6 +458,10 @@ class Interp:
         return res
 
     def compare(self, op, a, b):
+        if isinstance(a, PvObject) and op not in ('is', 'is not', 'in', 'not in'):
+            return a.pv_compare(self, op, b, False)
+        if isinstance(b, PvObject) and op not in ('is', 'is not', 'in', 'not in'):
+            return b.pv_compare(self, op, a, True)
         if op in ('in', 'not in'):
             r = self.lib.contains(self, b, a)
             return r if op == 'in' else ops.lnot(r)
@@ -725,6 +739,8 @@ class Interp:
 
     # ------------------------------------------------------------------ attributes
     def get_attr(self, v, name):
+        if isinstance(v, PvObject):
+            return v.pv_getattr(self, name)
         if isinstance(v, Obj):
             if name in v.f:
                 return v.f[name]
@@ -1194,7 +1210,18 @@ class Interp:
             sym = 'enum'
         if sym is not None:
             return self.cut_for(st, fr, it, sym)
-        items = self.iterate(it) if not isinstance(it, self.lib.EnumVal) else self.lib.enum_items(self, it)
+        if isinstance(it, list):
+            # Python's list iterator is index based and live: items appended (or removed) by the body are seen
+            def live(lst=it):
+                k = 0
+                while k < len(lst):
+                    if k > self.cfg.unroll_limit:
+                        raise OutOfSubset('concrete loop exceeds the unroll limit')
+                    yield lst[k]
+                    k += 1
+            items = live()
+        else:
+            items = self.iterate(it) if not isinstance(it, self.lib.EnumVal) else self.lib.enum_items(self, it)
         broke = False
         for x in items:
             self.assign(st.target, x, fr)
